@@ -387,8 +387,12 @@ def prog_odd(arg):
     return out
 
 
+class MsgId(str):
+    """A str subclass (an i18n message id, say) is a string."""
+
+
 ODD_NAMES = [b'', b'n', 0, 1, None, (), ('',), False, 0.0, 1.5, [], ['x'], {}, frozenset(),
-             'n', '', '\xe9', 'x' * 50]
+             'n', '', '\xe9', 'x' * 50, MsgId('n'), MsgId('')]
 
 
 def prog_names(arg):
